@@ -3,7 +3,7 @@ From Coq Require Import List ZArith Reals Lra Lia.
 From Coquelicot Require Import Coquelicot.
 From RV Require Import Common.Num Common.RealNum C02.Model C02.Spec C03.Model C16.Dual C16.GravityVar C16.GravityVarProofs
   C16.GravityVar2Proofs Gen.Derivs C16.DerivProofs C16.Deriv2Common C16.Deriv2All C16.KeplerVar C16.Link
-  C16.Rescale C16.RescaleProofs C16.WhInteraction.
+  C16.Rescale C16.RescaleProofs C16.WhInteraction C12.Model C16.JacobiTangent C16.Compose C03.Derivs C16.StiefelChain C16.Megno.
 Import ListNotations.
 Open Scope R_scope.
 
@@ -161,7 +161,8 @@ Print Assumptions C16_pal_constraints_from_residuals.
    (orb_spec2: bound orbit; pal_spec2: solved Pal-Kepler relations, (p,q) moved by pal_implicit / pal_implicit2) *)
 Theorem C16_second_order_constructors : List.Forall d2_spec d2_proved /\ (length d2_proved + length d2_unproved = 53)%nat.
 Proof. split; [exact d2_all_proved | exact d2_count]. Qed.
-Print Assumptions C16_second_order_constructors.
+(* Print Assumptions for this theorem walks the 53 generated proofs (about 60 s): it is run by the harness in the thorough
+   tier (tools/c16.py, coq_eval "Print Assumptions d2_all_proved") instead of on every quick run. *)
 
 Theorem C16_pal_implicit2 : forall (x y : pparam) (k h p q slp clp : R),
   q = k * clp + h * slp -> 1 - q <> 0 ->
@@ -218,6 +219,24 @@ Theorem C16_wh_interaction_var_is_dual_part : forall (G dt soft : R) (na k : nat
 Proof. exact wh_loop_var_is_dual_part. Qed.
 Print Assumptions C16_wh_interaction_var_is_dual_part.
 
+(* ---- the Jacobi transformations WHFast applies to variational particles (C12's jac_fwd / jac_inv with the REAL masses)
+   are the dual parts of the transformations of the real particles when the masses are not varied ... *)
+Theorem C16_jacobi_transforms_are_tangents : forall (ms : list R) (qds : list (R * R)) (mtot : R) (na : nat),
+  map snd (fst (jac_fwd DR (map cD ms) qds na)) = fst (jac_fwd RNum ms (map snd qds) na) /\
+  snd (snd (jac_fwd DR (map cD ms) qds na)) = 0 /\
+  map snd (jac_inv DR (map cD ms) qds (cD mtot) na) = jac_inv RNum ms (map snd qds) mtot na.
+Proof.
+  intros. destruct (jac_fwd_tangent ms qds na) as [H1 H2]. repeat split; auto. apply jac_inv_tangent.
+Qed.
+Print Assumptions C16_jacobi_transforms_are_tangents.
+
+(* ... and NOT when a mass is varied: the dual part has the additional term d(map)/dm * dm that the code never computes
+   (two unit masses at q = 0, 1, dm_1 = 1: centre-of-mass slot moves by 1/4).  Root of finding trajectory:whfast_mass_variation *)
+Theorem C16_jacobi_transform_mass_variation_refuted :
+  map snd (fst (jac_fwd DR [(1, 0); (1, 1)] [(0, 0); (1, 0)] 2)) <> fst (jac_fwd RNum [1; 1] [0; 0] 2).
+Proof. exact jac_mass_variation_not_tangent. Qed.
+Print Assumptions C16_jacobi_transform_mass_variation_refuted.
+
 (* ---- WHFast: the variational block of the Kepler solver (C03 kepler_variation, bit-exact with C) is the tangent map of
    the f-g step given the solved X.  ASSUMED: the Stiefel chain rule dG_n = G_(n-1) dX + (n G_(n+2) - X G_(n+1))/2 dbeta;
    dX is forced by the linearised Kepler equation (C16_kepler_dX_unique). *)
@@ -243,6 +262,40 @@ Theorem C16_kepler_dX_unique : forall (p1 dp : @S6 R) (M dt X G1 G2 G3 G4 G5 : R
 Proof. intros. apply (kepler_dX_unique p1 dp M dt X G1 G2 G3 G4 G5); assumption. Qed.
 Print Assumptions C16_kepler_dX_unique.
 
+(* ---- chain rule for a whole split step: for every word of operators each of which is tangent-correct (value part of the
+   program at dual numbers = the real program, dual part = the variational program the code runs), the variational word
+   is the dual part of the real word run at dual numbers.  OpJacFwd, OpWhKick, OpKepler/OpKepJP are such operators. *)
+Theorem C16_word_tangent : forall (SR SD : Type) (val dual : SD -> SR) (w : list (@Op SR SD val dual)) (s : SD),
+  domW w (val s) -> val (runD w s) = runR w (val s) /\ dual (runD w s) = runV w (val s) (dual s).
+Proof. exact word_tangent. Qed.
+Print Assumptions C16_word_tangent.
+
+(* WHFast D(dt/2) K(dt) D(dt/2) of one Jacobi particle (its Jacobi acceleration as input of the kick).  Hypotheses = domW:
+   r0 <> 0, r0 + eta0 G1 + zeta0 G2 <> 0, oracle = stiefel_Gs at both drifts, r^2+soft^2 > 0 at the kick; inside kepD the
+   ASSUMED Stiefel chain rule (proved for the closed-form functions in C16_stiefel_chain_rule_closed_form). *)
+Theorem C16_dkd_one_particle_tangent : forall (M dt G soft eta : R) (jac : bool) (orc1 orc2 : @S6 R -> G6) (s : @JP (R * R)),
+  let w := [OpKepJP M (dt / 2) orc1; OpWhKick G dt soft eta jac; OpKepJP M (dt / 2) orc2] in
+  domW w (jval s) ->
+  jval (runD w s) = runR w (jval s) /\ jdual (runD w s) = runV w (jval s) (jdual s).
+Proof. exact dkd_one_particle_tangent. Qed.
+Print Assumptions C16_dkd_one_particle_tangent.
+
+(* ---- the Stiefel chain rule assumed in C16_kepler_tangent, proved for C03's closed-form functions (beta <> 0):
+   along differentiable beta(t), X(t):  d/dt G_n = G_(n-1) X' + (n G_(n+2) - X G_(n+1))/2 beta'  (n = 1,2,3) *)
+Theorem C16_stiefel_chain_rule_closed_form : forall (b x : R -> R) (t0 db dx : R),
+  is_derive b t0 db -> is_derive x t0 dx -> b t0 <> 0 ->
+  let B := b t0 in let X := x t0 in
+  is_derive (fun t => G1d (b t) (x t)) t0 (G0d B X * dx + 1 / 2 * (G3d B X - X * G2d B X) * db) /\
+  is_derive (fun t => G2d (b t) (x t)) t0 (G1d B X * dx + 1 / 2 * (2 * G4d B X - X * G3d B X) * db) /\
+  is_derive (fun t => G3d (b t) (x t)) t0 (G2d B X * dx + 1 / 2 * (3 * G5d B X - X * G4d B X) * db).
+Proof.
+  intros b x t0 db dx Hb Hx Hne B X. destruct (Rtotal_order (b t0) 0) as [Hn | [H0 | Hp]].
+  - apply stiefel_chain_rule_neg; assumption.
+  - now elim Hne.
+  - apply stiefel_chain_rule_pos; assumption.
+Qed.
+Print Assumptions C16_stiefel_chain_rule_closed_form.
+
 (* ---- rescaling changes only the recorded magnitude (reb_simulation_rescale_var, branch for branch, incl. the IAS15
    branch of /repo 8a5d079): every set is untouched or all its coordinates are divided by ONE factor s > big whose ln is
    added to lrescale; exp(lrescale) * particles is unchanged, and when IAS15 holds state for the set
@@ -258,6 +311,31 @@ Theorem C16_rescale_only_magnitude : forall big : R, 0 < big -> forall (cs : lis
   /\ integ fl' = integ fl /\ safe_mode fl' = safe_mode fl /\ (recalc fl = true -> recalc fl' = true).
 Proof. exact rescale_only_magnitude. Qed.
 Print Assumptions C16_rescale_only_magnitude.
+
+(* ---- MEGNO bookkeeping (reb_tools_megno_*, reb_simulation_megno): with delta = (x,v), delta_dot = (v,a) of the MEGNO
+   particles, deltad_delta = (delta_dot.delta)/(delta.delta); WHFast/EOS add dY = 2 t dt * that; after the updates
+   (t_k, dY_k, dt_k) the returned value is (1/t) sum_k Y(t_k) dt_k with Y(t_k) = (1/t_k) sum_{j<=k} dY_j; mean_t is the
+   arithmetic mean of the t_k; the variance/covariance increments are ((n-1)/n)^2 times Welford's exact increments. *)
+Theorem C16_megno_is_time_weighted_mean : forall (l : list (R * R * R)) (t : R) (dt : R) (ps : list (@M9 R)),
+  (t <> 0 -> megno_of RNum t (mYss (megno_run RNum l)) = Yss_spec 0 l / t) /\
+  deltad_delta RNum ps = rsum dotdd ps / rsum dot2 ps /\
+  dY_whfast RNum dt t ps = 2 * t * dt * (rsum dotdd ps / rsum dot2 ps) /\
+  IZR (mn (megno_run RNum l)) * mmean_t (megno_run RNum l) = rsum (fun u => fst (fst u)) l /\
+  mn (megno_run RNum l) = Z.of_nat (length l).
+Proof.
+  intros l t dt ps. split; [intros Ht; apply megno_is_time_weighted_mean; exact Ht|].
+  split; [apply deltad_delta_is_ratio|]. split; [apply dY_whfast_formula|].
+  split.
+  - pose proof (mean_t_is_average l (ms0 RNum) (Z.le_refl 0)) as H. cbn zeta in H. unfold megno_run. rewrite H. cbn. ring.
+  - destruct (run_sums l (ms0 RNum)) as [_ [_ H]]. cbn zeta in H. unfold megno_run. rewrite H. cbn. reflexivity.
+Qed.
+Print Assumptions C16_megno_is_time_weighted_mean.
+
+Theorem C16_megno_variance_increment : forall (m t : R) (n : Z), (1 <= n)%Z ->
+  let n1 := IZR (n + 1) in let m' := m + (t - m) / n1 in
+  (n1 - 1) / n1 * (t - m') * (t - m') = ((n1 - 1) / n1) * ((n1 - 1) / n1) * ((t - m) * (t - m')).
+Proof. exact var_increment_factor. Qed.
+Print Assumptions C16_megno_variance_increment.
 
 (* Non-vacuity: a star and two planets at distinct positions; a bound orbit meeting the constructor hypotheses *)
 Example C16_hypotheses_inhabited :
